@@ -49,6 +49,7 @@ impl Visitor for RecFile {
 fn o_typeref(t: &TypeRef, out: &mut Vec<Ev>) {
     out.push(ev("typeref", t.span()));
     if matches!(&t.definition, TypeRefDefinition::Unpatched(_)) { return; }
+    if t.is_named_reference { return; } // what an alias stands for was written (and is presented) at the alias
     match t.concrete_type() {
         Types::ResultType(r) => { o_typeref(&r.success_type, out); o_typeref(&r.failure_type, out); }
         Types::Sequence(s) => o_typeref(&s.element_type, out),
